@@ -179,6 +179,23 @@ class TypeScriptDuplicateAnalyzer(BaseTokenAnalyzer):  # thailint: ignore[srp.vi
         for line_num in range(start_line, end_line + 1):
             jsdoc_lines.add(line_num)
 
+    def _add_block_comment_lines(self, node: Node, comment_lines: set[int]) -> None:
+        """Add the lines that hold nothing but text of a plain /* ... */ comment spanning several lines.
+
+        The opening line is left to the per-line comment stripping (code may precede the comment);
+        the closing line is skipped unless code follows the comment on it.
+
+        Args:
+            node: Comment node that spans more than one line
+            comment_lines: Set to add line numbers to
+        """
+        first_line = node.start_point[0] + 1
+        last_line = node.end_point[0] + 1
+        comment_lines.update(range(first_line + 1, last_line))
+        follower = node.next_sibling
+        if follower is None or follower.start_point[0] > node.end_point[0]:
+            comment_lines.add(last_line)
+
     def _collect_jsdoc_lines_recursive(self, node: Node, jsdoc_lines: set[int]) -> None:
         """Recursively collect JSDoc comment line ranges.
 
@@ -188,6 +205,8 @@ class TypeScriptDuplicateAnalyzer(BaseTokenAnalyzer):  # thailint: ignore[srp.vi
         """
         if self._is_jsdoc_comment(node):
             self._add_comment_lines_to_set(node, jsdoc_lines)
+        elif node.type == "comment" and node.end_point[0] > node.start_point[0]:
+            self._add_block_comment_lines(node, jsdoc_lines)
 
         for child in node.children:
             self._collect_jsdoc_lines_recursive(child, jsdoc_lines)
